@@ -240,3 +240,57 @@ func verifC12EndToEndTwoFuncs() {
 	verifAssert(sum[t4] == 7 && max[t4] == 7, "a slot with one point answers that point for both functions")
 	verifReach("end")
 }
+
+// C12 (select * over leaves whose local schemas differ): `select *` lets every leaf plan the fields of
+// its own node-local schema; a field that only one shard ever saw is in that leaf's answer only. Two
+// leaves - A holds field f, B holds f and g - answer in either order: the merged result has f and g
+// with all their points, whatever the arrival order.
+func verifE2ELeafFields(q *stmt.Query, names []string, pts map[string][]verifPoint) *protoCommonV1.TaskResponse {
+	var specs aggregation.AggregatorSpecs
+	for _, n := range names {
+		spec := aggregation.NewAggregatorSpec(field.Name(n), field.SumField)
+		spec.AddFunctionType(function.Sum)
+		specs = append(specs, spec)
+	}
+	storageCtx := &flow.StorageExecuteContext{Query: q, AggregatorSpecs: specs}
+	groupingCtx := &LeafGroupingContext{tagsMap: make(map[string]string), tagValues: make([]string, 0)}
+	reduceCtx := NewLeafReduceContext(storageCtx, groupingCtx)
+	var aggs aggregation.FieldAggregates
+	for i, n := range names {
+		sAgg := aggregation.NewSeriesAggregator(q.Interval, q.IntervalRatio, q.TimeRange, specs[i])
+		for _, p := range pts[n] {
+			sAgg.GetAggregator(q.TimeRange.Start).AggregateBySlot(p.slot, p.val)
+		}
+		aggs = append(aggs, sAgg)
+	}
+	reduceCtx.Reduce(aggs.ResultSet(""))
+	rs := reduceCtx.BuildResultSet(&models.Target{}, []string{"root"})
+	return &protoCommonV1.TaskResponse{Completed: true, Payload: rs[0]}
+}
+
+func verifC12SelectAllFieldSets() {
+	time.Local = time.UTC
+	q := verifE2EQuery(false, false)
+	q.SelectItems = nil
+	q.AllFields = true
+	v := float64(verifRange("value", 1, 1000))
+	a := verifE2ELeafFields(q, []string{"f"}, map[string][]verifPoint{"f": {{slot: 0, val: 1}}})
+	b := verifE2ELeafFields(q, []string{"f", "g"}, map[string][]verifPoint{"f": {{slot: 1, val: 2}}, "g": {{slot: 2, val: v}}})
+	resps := []*protoCommonV1.TaskResponse{a, b}
+	if verifChoose("arrival", 2) == 1 {
+		resps[0], resps[1] = resps[1], resps[0]
+	}
+	rs, err := verifE2ERoot(q, resps)
+	verifAssert(err == nil, "the answer is built")
+	if err != nil {
+		return
+	}
+	verifAssert(len(rs.Series) == 1, "one series without group by")
+	if len(rs.Series) != 1 {
+		return
+	}
+	f, g := rs.Series[0].Fields["f"], rs.Series[0].Fields["g"]
+	verifAssert(len(f) == 2 && f[verifE2EStart] == 1 && f[verifE2EStart+verifE2EInterval] == 2, "a field every leaf holds has all its points, whatever the arrival order")
+	verifAssert(len(g) == 1 && g[verifE2EStart+2*verifE2EInterval] == v, "a field only one leaf holds is in the answer of select *, whatever the arrival order")
+	verifReach("end")
+}
